@@ -223,7 +223,12 @@ func (txn *writeTxnState) addDeleteTracker(meta TableMeta, trackerName string, d
 		return tableError(meta.Name(), ErrTableNotLockedForWriting)
 	}
 
-	_, _, updated := table.deleteTrackers.Insert([]byte(trackerName), dt)
+	// Build the new tree of delete trackers without notifying. Nothing watches
+	// this tree, and closing the watch channels of the committed tree here would
+	// break the next update of it if this transaction gets aborted.
+	dtTxn := table.deleteTrackers.Txn()
+	dtTxn.Insert([]byte(trackerName), dt)
+	updated := dtTxn.Commit()
 	table.deleteTrackers = &updated
 	txn.db.metrics.DeleteTrackerCount(meta.Name(), table.deleteTrackers.Len())
 
